@@ -641,6 +641,7 @@ namespace bloch::runtime {
         m_returnValue = {};
         m_env.clear();
         for (auto& kv : m_classTable) kv.second->staticStorage.clear();
+        m_retainedObjects.clear();
     }
 
     Value RuntimeEvaluator::lookup(const std::string& name) {
@@ -1432,12 +1433,23 @@ namespace bloch::runtime {
         if (!obj || obj->destroyed)
             return;
         obj->destroyed = true;
+        const DestructorDeclaration* leakingDtor = nullptr;
         if (runUserDestructor && obj->cls) {
             // A destructor can run while its owner's scope unwinds from a 'return': the pending
             // return state belongs to that caller and must neither cut the destructor body short
             // nor be overwritten by calls the destructor makes.
             bool savedReturn = m_hasReturn;
             Value savedReturnValue = m_returnValue;
+            // 'this' inside a destructor is a non-owning alias. If the destructor stores it
+            // somewhere that outlives the object, the alias would dangle once the object is
+            // freed, so that is detected below and the storage kept.
+            std::shared_ptr<Object> self(obj, [](Object*) {});
+            // Also when a destructor body fails: the scopes it leaves behind still hold the alias.
+            struct RetainIfShared {
+                Object* object;
+                const std::shared_ptr<Object>& alias;
+                ~RetainIfShared() { object->retained = alias.use_count() > 1; }
+            } retainIfShared{obj, self};
             for (RuntimeClass* cur = obj->cls; cur; cur = cur->base) {
                 if (!cur->destructorDecl || !cur->destructorDecl->body)
                     continue;
@@ -1453,9 +1465,10 @@ namespace bloch::runtime {
                 FrameGuard frame(m_frameBase, m_env.size() - 1);
                 Value thisVal;
                 thisVal.type = Value::Type::Object;
-                thisVal.objectValue = std::shared_ptr<Object>(obj, [](Object*) {});
+                thisVal.objectValue = self;
                 thisVal.className = cur->name;
                 m_env.back()["this"] = {thisVal, false, true};
+                thisVal = {};
                 m_hasReturn = false;
                 for (auto& stmt : cur->destructorDecl->body->statements) {
                     exec(stmt.get());
@@ -1463,6 +1476,8 @@ namespace bloch::runtime {
                         break;
                 }
                 endScope();
+                if (!leakingDtor && self.use_count() > 1)
+                    leakingDtor = cur->destructorDecl;
                 m_inDestructor = prevDtor;
                 m_inConstructor = prevCtor;
                 m_inStaticContext = prevStatic;
@@ -1496,6 +1511,11 @@ namespace bloch::runtime {
             }
         }
         obj->fields.clear();
+        if (leakingDtor) {
+            throw BlochError(ErrorCategory::Runtime, leakingDtor->line, leakingDtor->column,
+                             "destructor of class '" + obj->cls->name +
+                                 "' stored a reference to the object being destroyed");
+        }
     }
 
     void RuntimeEvaluator::rethrowPendingDestructorError() {
@@ -2467,7 +2487,13 @@ namespace bloch::runtime {
                         m_hasReturn = prevReturn;
                     }
                 }
-                delete obj;
+                if (obj->retained) {
+                    // Only the storage is kept, not what the object referred to.
+                    obj->fields.clear();
+                    m_retainedObjects.emplace_back(obj);
+                } else {
+                    delete obj;
+                }
             };
             auto obj = std::shared_ptr<Object>(new Object{}, deleter);
             obj->cls = cls;
